@@ -8,9 +8,10 @@ unsigned long nondet_u64(void); long nondet_i64(void);
 typedef struct Adder Adder_t;
 unsigned long g_sum;        /* reference: sum of the slots presented so far (two's complement wrap) */
 unsigned long g_presented, g_zeroed; long g_slot; long *g_local;
-static void vf_havoc_ghosts(void) { g_sum = 0; g_presented = 0; g_zeroed = 0; }
+unsigned long g_total;      /* number of slots ever used (threads that exited included) */
+static void vf_havoc_ghosts(void) { g_sum = 0; g_presented = 0; g_zeroed = 0; g_total = nondet_u64(); }
 void AddStore_for_each__lambda_counter_value_1_void(struct AddStore *st, struct lambda_counter_value_1 *cb) {
-  unsigned long n = nondet_u64();
+  unsigned long n = g_total;
   for (unsigned long i = 0; i < n; ++i)
     __CPROVER_assigns(i, g_sum, g_slot, g_presented, *cb->VF_CAP_lambda_counter_value_1_1)
     __CPROVER_loop_invariant(i <= n && g_presented == i && (unsigned long)*cb->VF_CAP_lambda_counter_value_1_1 == g_sum)
@@ -22,8 +23,7 @@ void AddStore_for_each__lambda_counter_value_1_void(struct AddStore *st, struct 
     __CPROVER_assert(g_slot == before, "K5 C19.adder value() does not modify the slots it reads");
   }
 }
-void AddStore_for_each__lambda_counter_reset_1_void(struct AddStore *st, struct lambda_counter_reset_1 *cb) {
-  unsigned long n = nondet_u64();
+static void reset_walk(struct lambda_counter_reset_1 *cb, unsigned long n) {
   for (unsigned long i = 0; i < n; ++i)
     __CPROVER_assigns(i, g_slot, g_presented, g_zeroed)
     __CPROVER_loop_invariant(i <= n && g_presented == i && g_zeroed == i)
@@ -34,17 +34,25 @@ void AddStore_for_each__lambda_counter_reset_1_void(struct AddStore *st, struct 
     if (g_slot == 0) g_zeroed++;
   }
 }
+void AddStore_for_each__lambda_counter_reset_1_void(struct AddStore *st, struct lambda_counter_reset_1 *cb) { reset_walk(cb, g_total); }       /* every slot ever used */
+#ifdef VF_HAVE_AddStore_for_each_alive__lambda_counter_reset_1_void
+/* for_each_alive presents only the slots of threads that are alive now: any subset of the slots ever used */
+void AddStore_for_each_alive__lambda_counter_reset_1_void(struct AddStore *st, struct lambda_counter_reset_1 *cb) { unsigned long n = nondet_u64(); __CPROVER_assume(n <= g_total); reset_walk(cb, n); }
+#endif
+#ifdef VF_HAVE_AddStore_for_each_alive__lambda_counter_value_1_void
+void AddStore_for_each_alive__lambda_counter_value_1_void(struct AddStore *st, struct lambda_counter_value_1 *cb) { __CPROVER_assert(0, "C19.adder value() must sum every slot ever used (threads that exited included), not only the live ones"); }
+#endif
 long *AddStore_local__1(struct AddStore *st) __CPROVER_assigns() __CPROVER_ensures(__CPROVER_return_value == g_local);
 
 long Adder_value(Adder_t *a)
 __CPROVER_requires(__CPROVER_is_fresh(a, sizeof(*a)) && g_sum == 0 && g_presented == 0)
 __CPROVER_assigns(g_sum, g_slot, g_presented)
-__CPROVER_ensures((unsigned long)__CPROVER_return_value == g_sum)
+__CPROVER_ensures((unsigned long)__CPROVER_return_value == g_sum && g_presented == g_total)
 ;
 void Adder_reset(Adder_t *a)
 __CPROVER_requires(__CPROVER_is_fresh(a, sizeof(*a)) && g_presented == 0 && g_zeroed == 0)
 __CPROVER_assigns(g_slot, g_presented, g_zeroed)
-__CPROVER_ensures(g_zeroed == g_presented)           /* every slot presented was left at zero */
+__CPROVER_ensures(g_zeroed == g_presented && g_presented == g_total)           /* every slot ever used (exited threads included) was left at zero */
 ;
 void Adder_count(Adder_t *a, long value)
 __CPROVER_requires(__CPROVER_is_fresh(a, sizeof(*a)) && __CPROVER_is_fresh(g_local, sizeof(long)))
